@@ -285,9 +285,41 @@ def register(reg):
         extra = "'in_math_mode' in result._parent_parsing_state_info[1] or " if f == 'math_mode_delimiter' else ''
         ens.append(('field-%s-unchanged-unless-recorded-as-changed' % f,
                     "%s'%s' in result._parent_parsing_state_info[1] or result.%s is self.%s" % (extra, f, f, f)))
+    def make_sub_result(it, env):
+        """sub_context as seen from a caller: a new state object built from the requested / inherited fields (what the
+        unit below proves), with the expected-closing-delimiter table re-derived exactly when one of the four keys it
+        depends on is given (the guard proved in part 1)"""
+        me, kw = env.vars['self'], env.vars['kwargs']
+        for name_, v_ in list(me.fields.items()):
+            if isinstance(v_, V.LazyField):
+                it.getattr(me, name_)         # decide lazily-chosen inputs once, so that the copy inherits the same value
+        f = dict(me.fields)
+        given = dict(kw.items)
+        for k in given:
+            if k not in FIELDS:
+                it.raise_builtin('TypeError', 'wd:bind[sub_context(%s=)]' % k)
+            f[k] = given[k]
+        if not it.truthy(f['in_math_mode']) and f.get('math_mode_delimiter') is not None:
+            f['math_mode_delimiter'] = None
+        f['_parent_parsing_state_info'] = (me, PyDict(dict(given)))
+        if set(given) & {'in_math_mode', 'math_mode_delimiter', 'latex_inline_math_delimiters', 'latex_display_math_delimiters'}:
+            table = f.get('_math_delims_info_by_open')
+            d = f.get('math_mode_delimiter')
+            if not it.truthy(f['in_math_mode']) or d is None:
+                f['_math_expecting_close_delim_info'] = None
+            elif table is None:
+                raise EngineError('sub_context at a call site: the state has no math delimiter table')
+            elif it.truthy(it.contains_term(d, table)):
+                f['_math_expecting_close_delim_info'] = it.index_value(table, d, None)
+            else:
+                f['_math_expecting_close_delim_info'] = None
+        o = Obj(me.cls, f, tag='sub_context(%s)' % ','.join(sorted(given)), is_input=False)
+        o.open = me.open
+        return o
     c_sub = reg.add(Contract(
         PS + '.sub_context', setup=setup_sub,
         requires=[('receiver-is-normalised', NORMAL)],
+        result_make=make_sub_result,
         ensures=ens, modifies=[]))
     units['sub_context'] = FunctionUnit(c_sub)
 
